@@ -140,6 +140,25 @@ CHECKS['C09'] = dict(
          '(only explicit API calls may change it).',
     technique='Hypothesis stateful testing; differential of a probe run against a fresh recorder')
 
+CHECKS['C11'] = dict(
+    engine='progsim', category='exploration', design='DESIGN.md 3 C11',
+    text='Hypothesis-generated recordings with mutable values on every cassette type and generated scripts of reads '
+         '(get_data, [], get_data_direct, get_metadata, the objects handed to set_data) each followed by an in-place '
+         'mutation and re-reads/re-fetches; programs replayed by code that mutates every injected value and everything '
+         'inside Playback.recorded_outputs, then replayed again; recordings made with copy-on-interception while the '
+         'operation mutates returned values. Oracle: pristine model rebuilt from the case description.',
+    note='get_data_direct/get_metadata may expose the fetched graph (documented), so independence is required across '
+         'fetches only; output arguments under copy-on-interception are out of scope.',
+    technique='Hypothesis property-based testing with in-place mutation scripts against a pristine model')
+CHECKS['C20'] = dict(
+    engine='handwritten operation + cassette zoo', category='exploration', design='DESIGN.md 3 C20',
+    text='Hypothesis-generated byte contents and limits (boundary sizes limit-1/limit/limit+1, empty, binary, '
+         'placeholder text, env-variable limit 0 and 1 MB boundary) x positional/keyword path x instance/static x '
+         'input/output file handlers x cassette type, through record -> cassette -> fetch -> replay; byte round trip, '
+         'placeholder above the limit, restored path, stored form.',
+    note='Files live in a scratch directory removed after each case; the env variable is restored after each case.',
+    technique='Hypothesis property-based testing (byte round trip through recorder and cassette)')
+
 ENGINES = [
     ('progsim', 'pbt/progsim.py', 'program simulator: JSON program descriptions -> real decorated classes, undecorated '
                                   'twin, journals, fault injection, program strategies', ['C01', 'C02', 'C03', 'C04',
